@@ -268,3 +268,8 @@ THREE_LETTER_NAMES = [n for n in ["ALA", "CYS", "ASP", "PHE", "GLY", "HIS", "ILE
 def name_concatenations(min_names=1, max_names=12):
     """Legal one-letter sequences that happen to read as concatenated three-letter residue names (ALASERMET ...)."""
     return st.lists(st.sampled_from(THREE_LETTER_NAMES), min_size=min_names, max_size=max_names).map("".join)
+
+
+def paste_opt():
+    """None (three times in four) or the number of a pasted spelling (util.pasted_k) under which the object is built."""
+    return st.one_of(st.none(), st.none(), st.none(), st.integers(0, 6))
